@@ -174,7 +174,7 @@ func (h HttpSigTransport) Deliver(c context.Context, b []byte, to *url.URL) erro
 	}
 	defer resp.Body.Close()
 	if !isSuccess(resp.StatusCode) {
-		return fmt.Errorf("POST request to %s failed (%d): %s", to.String(), resp.StatusCode, resp.Status)
+		return fmt.Errorf("POST request to %s failed (%d): %s", withoutPassword(to), resp.StatusCode, resp.Status)
 	}
 	return nil
 }
@@ -189,9 +189,11 @@ func (h HttpSigTransport) BatchDeliver(c context.Context, b []byte, recipients [
 		go func(r *url.URL) {
 			defer wg.Done()
 			if err := h.Deliver(c, b, r); err != nil {
-				// Say which delivery failed, unless the error does.
-				if !strings.Contains(err.Error(), r.String()) {
-					err = fmt.Errorf("POST request to %s failed: %v", r, err)
+				// Say which delivery failed, unless the error is
+				// Deliver's own, which does.
+				named := fmt.Sprintf("POST request to %s failed", withoutPassword(r))
+				if !strings.HasPrefix(err.Error(), named) {
+					err = fmt.Errorf("%s: %v", named, err)
 				}
 				errCh <- err
 			}
@@ -212,6 +214,19 @@ outer:
 		return fmt.Errorf("batch deliver had at least one failure: %s", strings.Join(errs, "; "))
 	}
 	return nil
+}
+
+// withoutPassword returns the URL as a string for an error message: a password
+// in it is blanked out, as net/http does in its own errors.
+func withoutPassword(u *url.URL) string {
+	if u.User != nil {
+		if _, has := u.User.Password(); has {
+			c := *u
+			c.User = url.UserPassword(u.User.Username(), "xxxxx")
+			return c.String()
+		}
+	}
+	return u.String()
 }
 
 // HttpClient sends http requests, and is an abstraction only needed by the
